@@ -80,6 +80,7 @@ type Engine struct {
 	held     map[string][]*heldReader
 	lastOp   string
 	prevOK   map[uint64]bool // reads that were made and right at the previous check
+	only     map[string]bool // when set, CheckAll reads these nodes only
 }
 
 // opDeadline bounds one Store / RevertHead (hang detection). Generous: up to 14 histories and as many
@@ -128,7 +129,7 @@ func NewEngine(cfg Config, r *lib.RNG, driverPath, scratch string, res *lib.Resu
 		for _, c := range []struct {
 			name string
 			on   bool
-		}{{"leaffix", lf}, {"sysprobefix", sp}, {"historderfix", ho}} {
+		}{{"leaffix", lf}, {"sysprobefix", sp}, {"historderfix", ho}, {"migvalfix", migValFix()}} {
 			flag := "0"
 			if c.on {
 				flag = "1"
@@ -314,7 +315,86 @@ func firstLine(s string) string {
 	return s
 }
 
-// Revert removes the head block on every node.
+// modelTry asks the Lean model for the outcome of an operation without performing it:
+// line = "try-revert" | "try-store <hash> <p1|p2> <diff>". Answer per backend kind: "ok" | "err:<name>".
+func (e *Engine) modelTry(line string) map[string]string {
+	ans, ok := e.ask(line)
+	if !ok {
+		return nil
+	}
+	ans = strings.TrimSuffix(ans, " not-wf")
+	f := strings.Fields(ans)
+	if len(f) != 2 || !strings.HasPrefix(f[0], "new=") || !strings.HasPrefix(f[1], "legacy=") {
+		e.fatal("driver answer to %q: %q", firstLine(line), ans)
+		return nil
+	}
+	return map[string]string{"new": strings.TrimPrefix(f[0], "new="), "legacy": strings.TrimPrefix(f[1], "legacy=")}
+}
+
+// errClass maps an error of Store / RevertHead to the name the model gives the guard that fired;
+// "root" = every guard passed and the commitment check failed (commitments are not modelled).
+func errClass(err error) string {
+	if err == nil {
+		return "ok"
+	}
+	s := err.Error()
+	switch {
+	case strings.Contains(s, "already deployed"):
+		return "err:already-deployed"
+	case strings.Contains(s, "metadata not found"): // "cannot migrate class …: metadata not found"
+		return "err:meta-missing"
+	case strings.Contains(s, "cannot migrate"):
+		return "err:cannot-migrate"
+	case strings.Contains(s, "cannot unmigrate"):
+		return "err:cannot-unmigrate"
+	case strings.Contains(s, "remove declared classes: get class"):
+		return "err:class-missing"
+	case strings.Contains(s, "check head state"):
+		return "err:check-head-state"
+	case strings.Contains(s, "contract not deployed"):
+		return "err:not-deployed"
+	case strings.Contains(s, "key not found"):
+		return "err:not-found"
+	case strings.Contains(s, "does not match") || strings.Contains(s, "mismatch"):
+		return "root"
+	}
+	return "other"
+}
+
+// listedTwice: a class hash occurs twice in the declared sections of the diff (DeclaredV0Classes is
+// a slice).
+func listedTwice(d *core.StateDiff) bool {
+	seen := map[felt.Felt]bool{}
+	for _, c := range d.DeclaredV0Classes {
+		if seen[*c] {
+			return true
+		}
+		seen[*c] = true
+	}
+	for c := range d.DeclaredV1Classes {
+		if seen[c] {
+			return true
+		}
+	}
+	return false
+}
+
+// declaresRegisteredSierra: the diff declares (DeclaredV1Classes) a class hash the state already
+// holds — registered by an earlier block as the undeclared class of a deployed contract.
+func declaresRegisteredSierra(prev *lib.AbsState, d *core.StateDiff) bool {
+	for c := range d.DeclaredV1Classes {
+		if _, ok := prev.Classes[c]; ok {
+			return true
+		}
+	}
+	return false
+}
+
+// Revert removes the head block on every node. Destinations first: if one of them cannot revert,
+// nothing else is reverted, the failed attempt is treated as what it is for THIS property — an
+// operation without effect: all views of the nodes that refused are read once more against the
+// unchanged chain — and the history ends. Whether RevertHead may fail at all is C04's property; the
+// failure is classified, compared with the model's prediction, and filed under its own Sig.
 func (e *Engine) Revert() {
 	if e.broken != "" || e.g.Height() == 0 {
 		return
@@ -322,7 +402,12 @@ func (e *Engine) Revert() {
 	e.steps = append(e.steps, Step{Op: "revert"})
 	e.lastOp = "revert"
 	head := e.g.Head()
-	for i, n := range e.nodes {
+	prev := lib.NewAbsState()
+	if h := e.g.Height(); h >= 2 {
+		prev = e.g.States[h-2]
+	}
+	mdl := e.modelTry("try-revert")
+	try := func(i int, n *node) error {
 		var rerr error
 		done := lib.WithDeadline(opDeadline, func() {
 			var pan bool
@@ -334,26 +419,48 @@ func (e *Engine) Revert() {
 				return n.bc.RevertHead()
 			})
 			if pan {
-				rerr = fmt.Errorf("%v\n%s", rerr, stack)
+				rerr = fmt.Errorf("panic: %v\n%s", rerr, stack)
 			}
 		})
 		if !done {
-			rerr = fmt.Errorf("RevertHead did not return within %s", opDeadline)
+			e.fatal("RevertHead on %s did not return within %s (harness deadline)", n.name, opDeadline)
+			return fmt.Errorf("RevertHead did not return within %s", opDeadline)
 		}
-		if rerr != nil && e.emptied && n.kind == "legacy" && strings.Contains(rerr.Error(), "does not match the expected root: 0x") {
-			// not a read problem and not reported here: after a block that left a system contract
-			// with an empty storage, the legacy backend cannot revert any more (purgesystemContracts
-			// removes the contract and the root check fails) -- C04's subject
-			e.broken = n.name + " revert: " + rerr.Error()
-			e.hit("stop:legacy-revert-fails-after-system-contract-emptied(C04)")
-			return
+		return rerr
+	}
+	outcome := map[string]string{}
+	var failed []*node
+	firstErr := map[string]error{}
+	for i, n := range e.nodes[1:] {
+		rerr := try(i+1, n)
+		c := errClass(rerr)
+		if old, ok := outcome[n.kind]; ok && old != c {
+			e.fail(Failure{Violation: true, Sig: "revert-head-outcome-differs-between-nodes-of-one-backend-" + n.kind,
+				What: fmt.Sprintf("%s: %s, an earlier %s node: %s", n.name, c, n.kind, old), Query: map[string]any{"step": len(e.steps) - 1}})
 		}
+		outcome[n.kind] = c
 		if rerr != nil {
-			e.broken = n.name + " revert: " + rerr.Error()
-			e.fail(Failure{Violation: true, Sig: "revert-head-failed-" + n.kind,
-				What:  fmt.Sprintf("%s (%s) RevertHead of block %d: %v", n.name, n.kind, head.Block.Number, firstLine(rerr.Error())),
-				Query: map[string]any{"step": len(e.steps) - 1, "node": n.name}})
-			return
+			failed = append(failed, n)
+			if firstErr[n.kind] == nil {
+				firstErr[n.kind] = rerr
+			}
+		}
+	}
+	if len(failed) == 0 {
+		if rerr := try(0, e.nodes[0]); rerr != nil {
+			n := e.nodes[0]
+			outcome[n.kind] = errClass(rerr)
+			firstErr[n.kind] = rerr
+			failed = append(failed, n)
+		}
+	}
+	if len(failed) > 0 {
+		e.revertFailed(head, prev, failed, outcome, firstErr, mdl)
+		return
+	}
+	for kind, c := range outcome {
+		if mdl != nil && mdl[kind] != c {
+			e.fail(Failure{Sig: "model-revert-result-" + kind, What: "model: " + mdl[kind] + ", implementation: " + c, Query: map[string]any{"step": len(e.steps) - 1, "model": mdl[kind], "impl": c}})
 		}
 	}
 	e.shadowRevert(head.SU.StateDiff)
@@ -365,6 +472,74 @@ func (e *Engine) Revert() {
 			e.fail(Failure{Sig: "model-revert-result", What: "model: " + ans + ", implementation: ok", Query: map[string]any{"step": len(e.steps) - 1}})
 		}
 	}
+}
+
+// revertFailed: some node refused to revert its head. Classify, compare with the model, re-read the
+// refusing nodes (a failed RevertHead is an operation without effect), end the history.
+func (e *Engine) revertFailed(head *lib.Bundle, prev *lib.AbsState, failed []*node, outcome map[string]string, firstErr map[string]error, mdl map[string]string) {
+	d := head.SU.StateDiff
+	for kind, c := range outcome {
+		if c == "ok" {
+			if mdl != nil && mdl[kind] != "ok" {
+				e.fail(Failure{Sig: "model-revert-result-" + kind, What: "model: " + mdl[kind] + ", implementation: ok", Query: map[string]any{"step": len(e.steps) - 1, "model": mdl[kind], "impl": "ok"}})
+			}
+			continue
+		}
+		text := firstLine(firstErr[kind].Error())
+		cause, modelled := "", true
+		switch {
+		case kind == "legacy" && e.emptied && c == "root" && strings.Contains(text, "does not match the expected root: 0x"):
+			// after a block that left a system contract with a diff entry and an empty storage the
+			// legacy backend cannot revert any more (purgesystemContracts removes the contract, the
+			// root check fails) -- C04's subject, commitments are not modelled
+			e.hit("stop:legacy-revert-fails-after-system-contract-emptied(C04)")
+			cause, modelled = "known-to-C04", false
+		case kind == "legacy" && c == "err:class-missing" && listedTwice(d):
+			// removeDeclaredClasses reads each listed class through the transaction it deletes from
+			cause = "class-listed-twice-in-the-declared-section"
+		case c == "root" && declaresRegisteredSierra(prev, d):
+			// Update wrote the class-trie leaf of the declaration, Revert skips the class because it
+			// was registered (At) by an earlier block, the leaf stays: commitments are not modelled
+			cause, modelled = "declaration-of-a-sierra-class-registered-earlier-for-a-deployed-contract", false
+		}
+		if cause == "known-to-C04" {
+			continue
+		}
+		if cause == "" {
+			cause = "unclassified-" + strings.TrimPrefix(c, "err:")
+		}
+		if modelled && mdl != nil && mdl[kind] != c {
+			e.fail(Failure{Sig: "model-revert-result-" + kind, What: "model: " + mdl[kind] + ", implementation: " + c + " (" + text + ")", Query: map[string]any{"step": len(e.steps) - 1, "model": mdl[kind], "impl": c + " (" + text + ")"}})
+		}
+		if modelled && mdl != nil && mdl[kind] == c {
+			e.hit("revert:refused-as-the-model-predicts:" + kind + ":" + c)
+		}
+		e.fail(Failure{Violation: true, Sig: kind + "-revert-head-fails-" + cause,
+			What:  fmt.Sprintf("%s backend: RevertHead of block %d: %s", kind, head.Block.Number, text),
+			Query: map[string]any{"step": len(e.steps) - 1, "backend": kind}})
+	}
+	// nothing was reverted on the refusing nodes (and the source still holds the block): their
+	// views must be those of the unchanged chain
+	refusedOnly := true
+	for _, n := range e.nodes[1:] {
+		if outcome[n.kind] == "ok" {
+			refusedOnly = false
+		}
+	}
+	e.lastOp = "revert-refused"
+	e.hit("op:discarded:revert-refused")
+	e.only = map[string]bool{}
+	for _, n := range failed {
+		e.only[n.name] = true
+	}
+	if refusedOnly {
+		e.only["src"] = true
+	}
+	if e.nodes[0].bc != nil && e.g.Height() == int(head.Block.Number)+1 {
+		e.CheckAll()
+	}
+	e.only = nil
+	e.broken = "revert refused: " + firstLine(fmt.Sprint(firstErr))
 }
 
 // Apply executes one recorded step.
@@ -383,7 +558,7 @@ func (e *Engine) Apply(s Step) error {
 		e.Revert()
 	case "revert-dropped":
 		e.Discard(s.Op, nil)
-	case "simulate", "store-dropped", "store-late-fail", "store-wrong-root":
+	case "simulate", "store-dropped", "store-late-fail", "store-wrong-root", "store-invalid":
 		d, err := decodeDiff(s.Version, s.Diff)
 		if err != nil {
 			return err
@@ -409,6 +584,7 @@ var (
 	leafFixVal  bool
 	sysProbeVal bool
 	histOrdVal  bool
+	migValVal   bool
 	probeErr    error // a probe that could not run: Fatal in main
 )
 
@@ -469,6 +645,41 @@ func probeVariant() (leafFix, sysProbeFix, histOrderFix bool) {
 			}
 			histOrdVal = v.Equal(lib.F(0xc003))
 		}
+		// block store: does a CASM migration keep the hash of the diff? (a two-version chain)
+		{
+			initOnce()
+			s0 := sierraFxs[0]
+			g := lib.NewChainGen(lib.NewRNG(1), true, lib.DefaultGenOptions())
+			for _, b := range [][2]string{
+				{"0.13.4", "c1 " + hx(&s0.hash) + " " + hx(&s0.casm1) + " " + hx(&s0.casm2)},
+				{"0.14.1", "m " + hx(&s0.hash) + " abc"},
+			} {
+				d, err := decodeDiff(b[0], b[1])
+				if err != nil {
+					probeErr = fmt.Errorf("migValFix probe diff %q: %w", b[1], err)
+					return
+				}
+				if _, err := g.Next(&lib.BlockSpec{Version: d.Version, Diff: d.Diff, Classes: d.Classes, NoTxs: true}); err != nil {
+					probeErr = fmt.Errorf("migValFix probe block %q: %w", b[1], err)
+					return
+				}
+			}
+			r, _, err := g.Src.HeadState()
+			if err != nil {
+				probeErr = fmt.Errorf("migValFix probe: %w", err)
+				return
+			}
+			v, err := r.CompiledClassHash((*felt.SierraClassHash)(&s0.hash))
+			if err != nil {
+				probeErr = fmt.Errorf("migValFix probe: %w", err)
+				return
+			}
+			vf := felt.Felt(v)
+			migValVal = vf.Equal(lib.F(0xabc))
+		}
 	})
 	return leafFixVal, sysProbeVal, histOrdVal
 }
+
+// migValFix: the tree stores the hash a CASM migration carries (probeVariant must have run).
+func migValFix() bool { probeVariant(); return migValVal }
